@@ -2,7 +2,9 @@
 """Run the registered checks against every seeded change (apply to /repo, check, undo) and record the outcome in
 seeded/<id>/meta.json and seeded/RESULTS.md.   usage: seed_all.py [id ...]"""
 import glob, json, os, subprocess, sys
-EXTRA = {'C01': ['C02', 'C08'], 'C04': ['C06'], 'C06': ['C04', 'C07'], 'C07': ['C06'], 'C16': []}
+EXTRA = {'C01': ['C02', 'C08', 'C14'], 'C02': ['C01', 'C04', 'C06'], 'C03': ['C06'], 'C04': ['C06'], 'C06': ['C04', 'C07'], 'C07': ['C06'], 'C14': ['C01'], 'C16': [], 'C18': ['C05', 'C06'], 'C19': ['C07', 'C06'], 'C20': ['C04']}
+INPLACE = '--inplace' in sys.argv
+sys.argv = [a for a in sys.argv if a != '--inplace']
 ids = sys.argv[1:] or sorted(os.path.basename(d) for d in glob.glob('/verif/seeded/C*-*'))
 claimed = {c['property_id'] for c in json.load(open('/verif/MANIFEST.json'))['checks']}
 rows = []
@@ -11,16 +13,28 @@ for i in ids:
     meta = json.load(open(f'{d}/meta.json'))
     prop = meta['property']
     props = [p for p in [prop] + EXTRA.get(prop, []) if p in claimed]
-    st = subprocess.run(['git', '-C', '/repo', 'status', '--porcelain', '--', 'src'], capture_output=True, text=True).stdout
-    if st.strip():
-        print('refusing: /repo/src dirty'); sys.exit(9)
-    a = subprocess.run(['git', '-C', '/repo', 'apply', f'{d}/patch.diff'], capture_output=True, text=True)
+    import shutil
+    env_extra = {}
+    if INPLACE:
+        st = subprocess.run(['git', '-C', '/repo', 'status', '--porcelain', '--', 'src'], capture_output=True, text=True).stdout
+        if st.strip():
+            print('refusing: /repo/src dirty'); sys.exit(9)
+        a = subprocess.run(['git', '-C', '/repo', 'apply', f'{d}/patch.diff'], capture_output=True, text=True)
+    else:
+        # scratch mode: the units are generated from a patched copy of the sources (VERIF_REPO); /repo is untouched
+        # (Kani harnesses and replay scenarios still read /repo, so only Verus-decided obligations can go red)
+        scratch = f'/verif/build/scratch/seed-{i}/repo'
+        shutil.rmtree(os.path.dirname(scratch), ignore_errors=True)
+        os.makedirs(scratch)
+        shutil.copytree('/repo/src', scratch + '/src')
+        a = subprocess.run(['patch', '-p1', '-s', '-d', scratch, '-i', f'{d}/patch.diff'], capture_output=True, text=True)
+        env_extra = {'VERIF_REPO': scratch}
     if a.returncode != 0:
         meta['checks'] = {'error': 'patch does not apply to the current /repo: ' + a.stderr[:200]}
     else:
         try:
             for p in props:
-                r = subprocess.run(['./check', p, 'quick'], cwd='/verif', capture_output=True, text=True, env=dict(__import__('os').environ, VERIF_EVIDENCE_DIR='/verif/build/seed-evidence'))
+                r = subprocess.run(['./check', p, 'quick'], cwd='/verif', capture_output=True, text=True, env=dict(os.environ, VERIF_EVIDENCE_DIR='/verif/build/seed-evidence', **env_extra))
                 lines = [l for l in r.stdout.split('\n') if l.startswith(('VIOLATION', 'UNDECIDED'))]
                 first = lines[0][:300] if lines else ''
                 ob = ''
@@ -34,7 +48,10 @@ for i in ids:
                 meta['checks'][p] = {'exit': r.returncode, 'verdict': {0: 'MISSED', 1: 'DETECTED', 2: 'UNDECIDED'}.get(r.returncode, '?'),
                                      'first_line': first, 'obligation': ob}
         finally:
-            subprocess.run(['git', '-C', '/repo', 'checkout', '--', '.'])
+            if INPLACE:
+                subprocess.run(['git', '-C', '/repo', 'checkout', '--', '.'])
+            else:
+                shutil.rmtree(f'/verif/build/scratch/seed-{i}', ignore_errors=True)
     json.dump(meta, open(f'{d}/meta.json', 'w'), indent=1)
     rows.append((i, meta))
     print(i, {p: v.get('verdict') for p, v in meta['checks'].items() if isinstance(v, dict)})
